@@ -1032,7 +1032,7 @@ namespace ST
         const_reverse_iterator crend() const noexcept { return m_buffer.crend(); }
 
         ST_NODISCARD
-        char_buffer to_utf8() const noexcept { return m_buffer; }
+        char_buffer to_utf8() const { return m_buffer; }
 
         ST_NODISCARD
         utf16_buffer to_utf16() const
